@@ -352,3 +352,62 @@ func init() {
 		})})
 	}})
 }
+
+// a pool is a process with a pick loop of its own: Normal messages are forwarded to workers, higher classes are handled
+// by the pool itself. A High message whose send has returned is taken before any further Normal message is picked:
+// between the moment the send returned and the moment the pool handles it, at most the one forward that was in
+// progress can complete. (The worker is parked, so "forwarded so far" = length of its mailbox.)
+func init() {
+	harn.Register(harn.Scenario{Property: "C03", Name: "pool-high-behind-normal-backlog", Run: func(c *harn.Ctx) *harn.Result {
+		return harn.Explore(c, harn.Sched{QuickBound: 2, ThoroughBound: 3, Preempt: true, Cache: true, Body: nodeBody(func(w *World) {
+			g := &vsched.Gate{}
+			forwarded := func() int64 {
+				info, err := w.n.ProcessInfo(w.pids["W1"])
+				if err != nil {
+					return -1
+				}
+				return info.MailboxQueues.Main
+			}
+			atHandle := int64(-1)
+			var dbg []string
+			_, pool, _ := w.spawnPool(poolCfg{size: 1, gates: map[int]*vsched.Gate{1: g}, onPoolMsg: func(p *poolB, from gen.PID, m any) error {
+				if m == "H" {
+					atHandle = forwarded()
+					dbg = append(dbg, fmt.Sprintf("pool handles H fwd=%d", atHandle))
+				}
+				return nil
+			}})
+			w.Setup("park", func() { w.n.Send(pool, "park") }) // the only worker takes it and stays in the callback
+			atSent := int64(-1)
+			refused, sDone := false, false
+			w.ex.Thread("S", func() {
+				for _, m := range []string{"n1", "n2", "n3"} {
+					err := w.n.Send(pool, m)
+					dbg = append(dbg, fmt.Sprintf("sent %s err=%v fwd=%d", m, err, forwarded()))
+				}
+				if err := w.n.SendWithPriority(pool, "H", gen.MessagePriorityHigh); err != nil {
+					refused = true
+				} else {
+					atSent = forwarded()
+					dbg = append(dbg, fmt.Sprintf("sent H fwd=%d", atSent))
+				}
+				sDone = true
+			})
+			// the worker is released only once the sender is done and the High message has been handled (or was refused): until then its mailbox
+			// length is exactly the number of forwards
+			w.ex.Thread("G", func() {
+				vsched.Block(vsched.OpUser, 0, func() bool { return sDone && (atHandle >= 0 || refused) })
+				g.Open()
+			})
+			w.Check = func() {
+				if atSent >= 0 && atHandle >= 0 && atHandle > atSent+1 {
+					w.ex.Fail("priority-violated", "a pool with a backlog of Normal messages: %d of them had been forwarded when the send of the High message returned, %d when the pool handled it - the pool picked %d Normal messages while a High one was waiting (at most the one forward in progress may complete); %v", atSent, atHandle, atHandle-atSent, dbg)
+				}
+				if atSent >= 0 && atHandle < 0 {
+					w.ex.Fail("lost-message", "the High message was accepted by the pool and never handled")
+				}
+				w.Out("sent=%d handled=%d dbg=%v", atSent, atHandle, dbg)
+			}
+		})})
+	}})
+}
